@@ -1,10 +1,11 @@
 CONSTANT Modes = {"json16", "yamltok"}
-CONSTANT Big = TRUE
+CONSTANT Big = FALSE
 CONSTANT JMax = 1
 CONSTANT J16Max = 1
 CONSTANT J16Len = 5
 CONSTANT YMin = 4
 CONSTANT YMax = 4
+CONSTANT YAll = 3
 INIT Init
 NEXT Next
 INVARIANTS Laws Emit
